@@ -174,12 +174,20 @@ func runC18(idx int, rng *rand.Rand, tier string) []Case {
 		go func(g int) {
 			defer wg.Done()
 			for i := g; i < dials; i += conc {
-				ctx := context.WithValue(context.Background(), dialKey{}, i)
+				// a dial that does not end at the recording dialer (it went somewhere else: the real
+				// network, the system resolver) must not hold the run up: one second each, and a
+				// caller gives up after a few of them - they are counted and judged
+				ctx, cancel := context.WithTimeout(context.WithValue(context.Background(), dialKey{}, i), time.Second)
 				_, err := tr.DialContext(ctx, "tcp", name+":80")
+				cancel()
 				if err == nil || !strings.Contains(err.Error(), "recorded dial") {
 					emu.Lock()
 					errs++
+					giveUp := errs > 3
 					emu.Unlock()
+					if giveUp {
+						return
+					}
 				}
 			}
 		}(g)
